@@ -1,6 +1,8 @@
 import Texel.Proofs.Route3
 import Texel.Proofs.GenArith
+import Texel.Proofs.GenMathhelp
 import Texel.Proofs.GenLineInt
+import Texel.Proofs.GenQuadrants
 import Texel.Proofs.NoCollapse
 /-! # C02 — each edge is routed through exactly the hot pixels it meets
 
